@@ -65,7 +65,7 @@ plan in it is one `GetConversion` (safe mode) offers for some pair of types -/
 inductive SafeBuilt (E : Env) : UConv → Prop
   | plan {a b : Ty} {p : Plan} : getConv E a b false = some p → SafeBuilt E (.plan p)
   | constDyn : SafeBuilt E .constDyn
-  | thenOrig {f s : UConv} : SafeBuilt E f → SafeBuilt E s → SafeBuilt E (.thenOrig (some f) s)
+  | andThen {f s : UConv} : SafeBuilt E f → SafeBuilt E s → SafeBuilt E (.andThen (some f) s)
 
 theorem slotRel_safeBuilt {E : Env} {t ty : Ty} {c : UConv} (h : SlotRel E false t ty (some c)) : SafeBuilt E c := by
   cases h with
@@ -79,7 +79,7 @@ theorem slotRel_safeBuilt {E : Env} {t ty : Ty} {c : UConv} (h : SlotRel E false
       exact .plan hp
   | allDyn _ => exact .constDyn
   | viaEq _ _ hp => exact .plan hp
-  | composed _ _ hp hq => exact .thenOrig (.plan hp) (.plan hq)
+  | composed _ _ hp hq => exact .andThen (.plan hp) (.plan hq)
 
 /-! ### a slot filled the direct way, applied -/
 
@@ -108,6 +108,175 @@ theorem slotRel_plain_kind {E : Env} {uns : Bool} {t ty : Ty} {c : Option UConv}
   | composed hs _ _ _ =>
     exfalso
     cases ty <;> cases t <;> simp [structColl, isTupleTy, isListTy, isObjectTy, isMapTy] at hs hk
+
+/-! ### every form of slot, applied
+
+Since /repo df9d7d3 the composed closure hands the OUTPUT of its first step to the second
+(`applyU_andThen`), so a composed slot is two direct slots in a row — input type → `mid`
+→ result — and what C08 proves of a direct slot carries over step by step.  C08 has no
+theorem that the outcome of a conversion is again a well-formed value (`Value.wt`), nor
+that it is wholly known when the input is; the theorems below assume it of the
+intermediate value, explicitly. -/
+
+/-- `out, err := tupleConv(in); if err != nil { return out, err }; return listConv(out)` -/
+theorem applyU_andThen {E : Env} {fuel : Nat} {f s : UConv} {v out : Value} (h : applyU E fuel f v = .ok out) :
+    applyU E fuel (.andThen (some f) s) v = applyU E fuel s out := by
+  simp [applyU, h]
+
+/-- … `if err != nil { return out, err }` (and a panic of the first step is the panic of the closure) -/
+theorem applyU_andThen_stop {E : Env} {fuel : Nat} {f s : UConv} {v : Value}
+    (h : ∀ out, applyU E fuel f v ≠ .ok out) : applyU E fuel (.andThen (some f) s) v = applyU E fuel f v := by
+  cases hr : applyU E fuel f v with
+  | ok out => exact absurd hr (h out)
+  | err _ => simp [applyU, hr]
+  | panic _ => simp [applyU, hr]
+  | unmodelled => simp [applyU, hr]
+
+theorem getConv_wrap {E : Env} {a b : Ty} {uns : Bool} {p : Plan} (h : getConv E a b uns = some p) :
+    ∃ c, p = .wrap b c := by
+  obtain ⟨c, _, rfl⟩ := Option.map_eq_some_iff.mp h
+  exact ⟨c, rfl⟩
+
+/-- a slot filled the direct way names its target -/
+theorem direct_targets {E : Env} {uns : Bool} {t ty : Ty} {c : UConv} (h : slotOf E uns t ty = some (some c)) :
+    stepTargets c = [t] := by
+  obtain ⟨_, p, rfl, hg⟩ := direct_plan h
+  obtain ⟨c1, rfl⟩ := getConv_wrap hg
+  rfl
+
+theorem structColl_not_equals_mid {ty mid t : Ty} (h : structColl ty mid t = true) : ty.equals mid = false := by
+  cases ty <;> cases mid <;> simp [structColl, isTupleTy, isListTy, isObjectTy, isMapTy, equals] at *
+
+/-- the forms of a non-nil slot, in terms of direct slots: filled the direct way; the
+constant of unifyAllAsDynamic; or, for a tuple among lists / an object among maps, through
+the list / map type `mid` the tuples / objects unify to on their own — the first step alone
+where `mid` already is the result, else the closure composed of both steps -/
+theorem slotRel_cases {E : Env} {uns : Bool} {t ty : Ty} {c : UConv} (h : SlotRel E uns t ty (some c)) :
+    slotOf E uns t ty = some (some c) ∨ (t = .dyn ∧ c = .constDyn) ∨
+    ∃ mid f, structColl ty mid t = true ∧ slotOf E uns mid ty = some (some f) ∧
+      ((c = f ∧ (mid.equals t = true ∨ mid = t)) ∨
+       ∃ s, c = .andThen (some f) s ∧ slotOf E uns t mid = some (some s)) := by
+  cases h with
+  | direct hs => exact .inl hs
+  | allDyn ht => exact .inr (.inl ⟨ht, rfl⟩)
+  | viaEq hs he hp =>
+    rename_i mid p
+    refine .inr (.inr ⟨mid, .plan p, hs, ?_, .inl ⟨rfl, he⟩⟩)
+    simp [slotOf, structColl_not_equals_mid hs, hp]
+  | composed hs he hp hq =>
+    rename_i mid p q
+    refine .inr (.inr ⟨mid, .plan p, hs, ?_, .inr ⟨.plan q, rfl, ?_⟩⟩)
+    · simp [slotOf, structColl_not_equals_mid hs, hp]
+    · simp [slotOf, he, hq]
+
+theorem plainTy_parts {t : Ty} (h : plainTy t = true) : t.wf = true ∧ t.hasOpt = false ∧ t.hasDyn = false := by
+  simp only [plainTy, Bool.and_eq_true, Bool.not_eq_true'] at h
+  exact ⟨h.1.1, h.1.2, h.2⟩
+
+theorem yieldsUnified_of_ty {t : Ty} {r : Value} (ht : plainTy t = true) (h : r.ty = t) : yieldsUnified t r = true := by
+  obtain ⟨hw, ho, hd⟩ := plainTy_parts ht
+  have hc := conform_stripOpt t hw hd
+  rw [stripOpt_id_of_noOpt t ho] at hc
+  simp [yieldsUnified, conformsTo, noOptional, h, hc, ho]
+
+/-- a direct slot applied: the outcome has the target type (C08's `apply_ty`) -/
+theorem direct_ty {E : Env} (hU : UnifyLaws E) {fuel : Nat} {uns : Bool} {t : Ty} {c : UConv} {v r : Value}
+    (ht : plainTy t = true) (hd : slotOf E uns t v.ty = some (some c)) (hv : Value.wt v = true)
+    (ha : applyU E fuel c v = .ok r) : r.ty = t := by
+  obtain ⟨hw, ho, hdn⟩ := plainTy_parts ht
+  obtain ⟨_, p, rfl, hg⟩ := direct_plan hd
+  rw [apply_ty hU ⟨hv, hw, hdn⟩ hg ha, stripOpt_id_of_noOpt t ho]
+
+/-- a direct slot applied to a value without unknown parts: no panic, and an error only in
+unsafe mode (C08's `apply_NB`) -/
+theorem direct_NB {E : Env} (hU : UnifyLaws E) (hS : SetLaws E) {fuel : Nat} {uns : Bool} {t : Ty} {c : UConv}
+    {v : Value} (ht : plainTy t = true) (hd : slotOf E uns t v.ty = some (some c)) (hv : Value.wt v = true)
+    (hk : Payload.whollyKnown v.v = true) : NB uns (applyU E fuel c v) := by
+  obtain ⟨hw, _, hdn⟩ := plainTy_parts ht
+  obtain ⟨_, p, rfl, hg⟩ := direct_plan hd
+  exact apply_NB hU hS fuel ⟨hv, hw, hdn⟩ hk hg
+
+/-- the composed closure: type of the outcome -/
+theorem andThen_ty {E : Env} (hU : UnifyLaws E) {fuel : Nat} {uns : Bool} {t mid : Ty} {f s : UConv} {v r : Value}
+    (ht : plainTy t = true) (hm : plainTy mid = true) (hf : slotOf E uns mid v.ty = some (some f))
+    (hs : slotOf E uns t mid = some (some s)) (hv : Value.wt v = true)
+    (hout : ∀ out, applyU E fuel f v = .ok out → Value.wt out = true)
+    (ha : applyU E fuel (.andThen (some f) s) v = .ok r) : r.ty = t := by
+  cases h1 : applyU E fuel f v with
+  | ok out =>
+    have hty := direct_ty hU hm hf hv h1
+    rw [applyU_andThen h1] at ha
+    exact direct_ty hU ht (by rw [hty]; exact hs) (hout out h1) ha
+  | err e => rw [applyU_andThen_stop (by simp [h1]), h1] at ha; simp at ha
+  | panic w => rw [applyU_andThen_stop (by simp [h1]), h1] at ha; simp at ha
+  | unmodelled => rw [applyU_andThen_stop (by simp [h1]), h1] at ha; simp at ha
+
+/-- the composed closure on a value without unknown parts -/
+theorem andThen_NB {E : Env} (hU : UnifyLaws E) (hS : SetLaws E) {fuel : Nat} {uns : Bool} {t mid : Ty}
+    {f s : UConv} {v : Value} (ht : plainTy t = true) (hm : plainTy mid = true)
+    (hf : slotOf E uns mid v.ty = some (some f)) (hs : slotOf E uns t mid = some (some s))
+    (hv : Value.wt v = true) (hk : Payload.whollyKnown v.v = true)
+    (hout : ∀ out, applyU E fuel f v = .ok out → Value.wt out = true ∧ Payload.whollyKnown out.v = true) :
+    NB uns (applyU E fuel (.andThen (some f) s) v) := by
+  have h1nb := direct_NB hU hS (fuel := fuel) hm hf hv hk
+  cases h1 : applyU E fuel f v with
+  | ok out =>
+    have hty := direct_ty hU hm hf hv h1
+    rw [applyU_andThen h1]
+    exact direct_NB hU hS ht (by rw [hty]; exact hs) (hout out h1).1 (hout out h1).2
+  | err e => rw [applyU_andThen_stop (by simp [h1])]; exact h1nb
+  | panic w => rw [applyU_andThen_stop (by simp [h1])]; exact h1nb
+  | unmodelled => rw [applyU_andThen_stop (by simp [h1])]; exact h1nb
+
+/-- a first step alone whose target `mid` `Equals` the result is the direct slot -/
+theorem viaEq_direct {E : Env} {uns : Bool} {t ty mid : Ty} {f : UConv} (ht : plainTy t = true)
+    (hm : plainTy mid = true) (he : mid.equals t = true ∨ mid = t) (hf : slotOf E uns mid ty = some (some f)) :
+    slotOf E uns t ty = some (some f) := by
+  have : mid = t := by
+    rcases he with he | he
+    · exact eq_of_equals (plainTy_parts hm).1 (plainTy_parts ht).1 he
+    · exact he
+  subst this; exact hf
+
+/-- ANY non-nil slot applied: the outcome has the unified type — for a placeholder-free
+result type, step targets that are placeholder-free too, and (composed closure only) a
+well-formed intermediate value -/
+theorem slot_applied_ty {E : Env} (hU : UnifyLaws E) {fuel : Nat} {uns : Bool} {t : Ty} {c : UConv} {v r : Value}
+    (ht : plainTy t = true) (hrel : SlotRel E uns t v.ty (some c)) (hv : Value.wt v = true)
+    (hT : ∀ m ∈ stepTargets c, plainTy m = true)
+    (hout : ∀ f s out, c = .andThen (some f) s → applyU E fuel f v = .ok out → Value.wt out = true)
+    (ha : applyU E fuel c v = .ok r) : r.ty = t := by
+  rcases slotRel_cases hrel with hd | ⟨hdyn, _⟩ | ⟨mid, f, _, hf, hrest⟩
+  · exact direct_ty hU ht hd hv ha
+  · subst hdyn; simp [plainTy, hasDyn] at ht
+  · have hfm : plainTy mid = true := by
+      have := direct_targets hf
+      rcases hrest with ⟨rfl, _⟩ | ⟨s, rfl, _⟩
+      · exact hT mid (by simp [this])
+      · exact hT mid (by simp [stepTargets, this])
+    rcases hrest with ⟨rfl, he⟩ | ⟨s, rfl, hs⟩
+    · exact direct_ty hU ht (viaEq_direct ht hfm he hf) hv ha
+    · exact andThen_ty hU ht hfm hf hs hv (fun out h1 => hout f s out rfl h1) ha
+
+/-- ANY non-nil slot applied to a value without unknown parts: no panic, and an error only
+in unsafe mode — same side conditions, the intermediate value wholly known too -/
+theorem slot_applied_NB {E : Env} (hU : UnifyLaws E) (hS : SetLaws E) {fuel : Nat} {uns : Bool} {t : Ty}
+    {c : UConv} {v : Value} (ht : plainTy t = true) (hrel : SlotRel E uns t v.ty (some c))
+    (hv : Value.wt v = true) (hk : Payload.whollyKnown v.v = true)
+    (hT : ∀ m ∈ stepTargets c, plainTy m = true)
+    (hout : ∀ f s out, c = .andThen (some f) s → applyU E fuel f v = .ok out →
+      Value.wt out = true ∧ Payload.whollyKnown out.v = true) : NB uns (applyU E fuel c v) := by
+  rcases slotRel_cases hrel with hd | ⟨hdyn, _⟩ | ⟨mid, f, _, hf, hrest⟩
+  · exact direct_NB hU hS ht hd hv hk
+  · subst hdyn; simp [plainTy, hasDyn] at ht
+  · have hfm : plainTy mid = true := by
+      have := direct_targets hf
+      rcases hrest with ⟨rfl, _⟩ | ⟨s, rfl, _⟩
+      · exact hT mid (by simp [this])
+      · exact hT mid (by simp [stepTargets, this])
+    rcases hrest with ⟨rfl, he⟩ | ⟨s, rfl, hs⟩
+    · exact direct_NB hU hS ht (viaEq_direct ht hfm he hf) hv hk
+    · exact andThen_NB hU hS ht hfm hf hs hv hk (fun out h1 => hout f s out rfl h1)
 
 end Unify
 end CtyModel
